@@ -48,6 +48,8 @@ var keyKindsB = []keyKindB{
 	{"uint16", "uint16", "return uint16(ki * 257)"},
 	{"chanint", "chan int", "return chans[ki%4096]"},
 	{"named", "myInt", "return myInt(ki) - 600"},
+	{"ifacetag", "interface{}", "switch ki % 4 {\n\tcase 0:\n\t\treturn struct {\n\t\t\tA int \"t:\\\"1\\\"\"\n\t\t}{A: ki / 4}\n\tcase 1:\n\t\treturn struct {\n\t\t\tA int \"t:\\\"2\\\"\"\n\t\t}{A: ki / 4}\n\tcase 2:\n\t\treturn struct{ baseA }{baseA{ki / 4}}\n\t}\n\treturn struct{ aliasA }{aliasA{ki / 4}}"}, // unnamed struct types that differ only in a tag or in the name of an embedded alias field
+	{"arrzs", "[2]zsTail", "return [2]zsTail{{A: int64(ki)}, {A: int64(-ki)}}"}, // array of structs that end in a zero-size field
 	{"k128", "[16]int64", "var k [16]int64\n\tk[0], k[15] = int64(ki), int64(-ki)\n\treturn k"}, // exactly the inline limit
 }
 
@@ -56,6 +58,8 @@ var elemKindsB = []elemKindB{
 	{"empty", "struct{}", "return struct{}{}", "return 0", "struct{}{}"},
 	{"big200", "[25]int64", "var a [25]int64\n\ta[0], a[24] = int64(v), int64(v)*3\n\treturn a", "if x[24] != x[0]*3 {\n\t\treturn -1\n\t}\n\treturn int(x[0])", "[25]int64{}"},
 	{"string", "string", "return \"v\" + itoa(v)", "if len(x) == 0 {\n\t\treturn 0\n\t}\n\tif x[0] != 'v' {\n\t\treturn -1\n\t}\n\tn := 0\n\tfor i := 1; i < len(x); i++ {\n\t\tif x[i] < '0' || x[i] > '9' {\n\t\t\treturn -1\n\t\t}\n\t\tn = n*10 + int(x[i]-'0')\n\t}\n\treturn n", "\"\""},
+	{"func", "func() int", "x := v\n\treturn func() int { return x }", "if x == nil {\n\t\treturn 0\n\t}\n\treturn x()", "nil"}, // a closure: two words in the slot
+	{"huge", "[200]int64", "var a [200]int64\n\ta[0], a[199] = int64(v), int64(v)*3\n\treturn a", "for i := 1; i < 199; i++ {\n\t\tif x[i] != 0 {\n\t\t\treturn -1\n\t\t}\n\t}\n\tif x[199] != x[0]*3 {\n\t\treturn -1\n\t}\n\treturn int(x[0])", "[200]int64{}"}, // larger than the runtime's shared zero value
 	{"e128", "[16]int64", "var a [16]int64\n\ta[0], a[15] = int64(v), int64(v)*3\n\treturn a", "if x[15] != x[0]*3 {\n\t\treturn -1\n\t}\n\treturn int(x[0])", "[16]int64{}"}, // exactly the inline limit
 }
 
@@ -88,6 +92,27 @@ import "unsafe"
 func getchar() int32
 
 type myInt int32
+
+type tagS1 struct {
+	A int "t:\"1\""
+}
+
+type tagS2 struct {
+	A int "t:\"2\""
+}
+
+type baseA struct{ V int }
+
+type aliasA = baseA
+
+type embS1 struct{ baseA }
+
+type embS2 struct{ aliasA }
+
+type zsTail struct {
+	A int64
+	Z struct{}
+}
 
 var chans = func() (c [4096]chan int) {
 	for i := range c {
